@@ -178,6 +178,9 @@ type Dir struct {
 
 	Com    string // price
 	Price  Q
+	// PriceStr, when set, is the price as written (up to 8 decimals); Price is
+	// then only its 4-decimal approximation.
+	PriceStr string
 	Target string
 
 	QStyle int
@@ -191,7 +194,11 @@ func (d *Dir) Render() string {
 	case "close":
 		fmt.Fprintf(&b, "%s close %s\n", d.Date, d.Account)
 	case "price":
-		fmt.Fprintf(&b, "%s price %s %s %s\n", d.Date, d.Com, d.Price.Render(d.QStyle), d.Target)
+		ps := d.Price.Render(d.QStyle)
+		if d.PriceStr != "" {
+			ps = d.PriceStr
+		}
+		fmt.Fprintf(&b, "%s price %s %s %s\n", d.Date, d.Com, ps, d.Target)
 	case "assert":
 		if d.Multi || len(d.Balances) != 1 {
 			fmt.Fprintf(&b, "%s balance\n", d.Date)
@@ -446,4 +453,14 @@ func RefCheck(j *Journal) Verdict {
 		s = e
 	}
 	return Verdict{OK: true}
+}
+
+// PriceDec is the declared price as an exact decimal.
+func (d *Dir) PriceDec() decimalT {
+	if d.PriceStr != "" {
+		if x, err := decimalFromString(d.PriceStr); err == nil {
+			return x
+		}
+	}
+	return qToDec(d.Price)
 }
